@@ -11,6 +11,8 @@ Decision rule (DESIGN section 1):
     a broken theorem / correspondence with no failing input found ->
     VIOLATION ... no-failing-input-found.
 """
+import warnings
+warnings.simplefilter("ignore")
 import os, sys, json, time, random, importlib, hashlib, traceback, argparse
 
 sys.path.insert(0, os.path.dirname(os.path.dirname(os.path.abspath(__file__))))
